@@ -25,6 +25,7 @@ def run(chk):
         "the transport with 1006 and wakes a blocked receive(); auto-close/auto-pong dispatch; concurrent receive() is refused before any await."
     )
     chk.not_decided = "that receive() eventually returns in every interleaving (liveness); bounded send-side back-pressure during close; timer arithmetic."
+    chk.explanation += " After the defect hunt: sending the Close frame and draining are under the close timeout; the peer's CLOSE is recognised by `is not None`."
     for sp in SPECS:
         one(chk, repo, sp)
     # no data frame follows the close frame: decided on the writer (shared with C11)
